@@ -341,7 +341,16 @@ def check_dir_mtime(ctx):
                     if mc[1] == 'extend':
                         out |= candidates(p, ev.node.args[0], depth - 1)
                     elif mc[1] == 'append':
-                        out |= elem_kind(ev.node.args[0], None)
+                        for k in elem_kind(ev.node.args[0], None):
+                            if k.startswith('entries:'):
+                                sym = k.split(':', 1)[1]
+                                filtered = any(
+                                    c.kind == 'test' and sym in U(c.expr)
+                                    for c in p.conds)
+                                out.add('?filtered listing' if filtered
+                                        else 'entries')
+                            else:
+                                out.add(k)
                     elif mc[1] == 'insert' and len(ev.node.args) == 2:
                         out |= elem_kind(ev.node.args[1], None)
             return out
@@ -386,6 +395,22 @@ def check_dir_mtime(ctx):
                     f.module, it.func) or '').endswith('os.listdir') and \
                     it.args and U(it.args[0]) == path_p:
                 return {'entries'}
+        if gen is None and isinstance(x, ast.Call) and (
+                prog.resolve(f.module, x.func) or '').endswith(
+                    'os.path.join') and len(x.args) == 2 and U(
+                        x.args[0]) == path_p and isinstance(
+                            x.args[1], ast.Name):
+            # appended in a loop over the directory listing (one element
+            # stands for each: the loop body has no filter when the append
+            # is not under a test of the element, checked by the caller)
+            d = en.defs.get(x.args[1].id)
+            if isinstance(d, tuple) and d and d[0] == 'elem':
+                it = en.expand(d[1])
+                if isinstance(it, ast.Call) and it.args and U(
+                        it.args[0]) == path_p and (prog.resolve(
+                            f.module, it.func) or '').endswith(
+                                ('os.listdir',)):
+                    return {'entries:' + x.args[1].id}
         if isinstance(x, ast.Attribute) and x.attr == 'path' and \
                 gen is not None and U(x.value) == U(gen.target) and \
                 not gen.ifs:
@@ -465,6 +490,13 @@ def check_dir_mtime(ctx):
                 ok_upd = True
         if m is not None and not is_const(en.expand(m)):
             got = newest_over(p, m)
+            if got is not None and 'entries' not in got and any(
+                    c.kind == 'loop' and not c.pol and isinstance(
+                        en.expand(c.expr), ast.Call) and (prog.resolve(
+                            f.module, en.expand(c.expr).func) or ''
+                        ).endswith('os.listdir') for c in p.conds):
+                # the listing loop did not run: there are no entries
+                got = got | {'entries'}
             if got is not None:
                 cand = got if cand is None else (cand & got)
     ctx.count(len(t.paths))
